@@ -422,6 +422,8 @@ package composite
 //@ props C10 C01
 //@ sweep
 //@ ensures [C01:rendering-metadata-keeps-the-resources-name] cd.GetName() == old(cd.GetName()) && cd.GetNamespace() == old(cd.GetNamespace())
+//@ ensures [C01,C03:rendered-resource-carries-the-resource-name-it-was-rendered-for] err == nil && n != "" ==> cd.GetAnnotations()[AnnotationKeyCompositionResourceName] == n
+//@ ensures [C01:rendered-resource-carries-the-composites-labels] err == nil ==> cd.GetLabels()[xcrd.LabelKeyNamePrefixForComposed] == xr.GetLabels()[xcrd.LabelKeyNamePrefixForComposed] && cd.GetLabels()[xcrd.LabelKeyClaimName] == xr.GetLabels()[xcrd.LabelKeyClaimName] && cd.GetLabels()[xcrd.LabelKeyClaimNamespace] == xr.GetLabels()[xcrd.LabelKeyClaimNamespace]
 
 
 // C12 (XR side): with the Manual policy and a revision already referenced, the XR fetches that
